@@ -156,7 +156,9 @@ func (c *copier) prepareTargetDir(srcFollowed, src, destPath string, copyDirCont
 	}
 
 	if (!copyDirContents && fiSrc.IsDir() && fiDest != nil) || (!fiSrc.IsDir() && fiDest != nil && fiDest.IsDir()) {
-		destPath = filepath.Join(destPath, filepath.Base(src))
+		// src is resolved as if srcRoot were "/" (see rootPath); name the copy
+		// after that resolved path so that ".." cannot leave the destination
+		destPath = filepath.Join(destPath, filepath.Base(filepath.Join("/", src)))
 	}
 
 	target := filepath.Dir(destPath)
